@@ -387,6 +387,41 @@ func (d *realT) storedHolds() (bool, string) {
 	return true, ""
 }
 
+// defaultsHold evaluates "omitted columns get their declared default" with the engine's own
+// evaluator for the tuples a successful plain INSERT stored: every plain column the tuple omitted or
+// gave as DEFAULT is <=> its DEFAULT expression (NULL when it has none) over the stored row.
+func (d *realT) defaultsHold(st stmt) (bool, string) {
+	if st.kind != "ins" || st.ignore {
+		return true, ""
+	}
+	for _, tup := range st.tuples {
+		given := map[int]bool{}
+		key := 0
+		for j, c := range st.cols {
+			if c == 0 {
+				key = tup[j].v
+			}
+			if tup[j].kind != "d" {
+				given[c] = true
+			}
+		}
+		for i, c := range d.t.cols {
+			if i == 0 || c.gen != nil || given[i] {
+				continue
+			}
+			want := "NULL"
+			if c.dflt != nil {
+				want = c.dflt.SQL()
+			}
+			r := d.q(fmt.Sprintf("SELECT COUNT(*) FROM t WHERE c0 = %d AND (c%d <=> %s)", key, i, want))
+			if r.Class() != "ok" || len(r.Rows) != 1 || r.Rows[0][0] != "1" {
+				return false, fmt.Sprintf("row %d: omitted column c%d does not hold its default %s", key, i, want)
+			}
+		}
+	}
+	return true, ""
+}
+
 // ---------------------------------------------------------------------------------------------
 // Generators.
 
@@ -559,7 +594,13 @@ func runCase(t *table, nst int, next func(i int, keys []int) stmt, out *hx.Out) 
 	e := eng.New("d")
 	d := &realT{e: e, ctx: e.Ctx(), t: t}
 	if r := d.q(t.DDL()); r.Class() != "ok" {
+		// every generated table is valid: a rejected DDL is an observation the model does not predict
 		out.Stat("ddl-rejected:" + r.Class())
+		var ps []string
+		for i := 0; i < nst; i++ {
+			ps = append(ps, next(i, nil).payload())
+		}
+		out.Case(t.payload()+" (stmts "+strings.Join(ps, " ")+")", "ddl-rejected:"+r.Class()+" "+t.DDL(), false)
 		return
 	}
 	var sb strings.Builder
@@ -585,6 +626,11 @@ func runCase(t *table, nst int, next func(i int, keys []int) stmt, out *hx.Out) 
 		if !ok {
 			flag = "0"
 			failures = append(failures, fmt.Sprintf("stmt %d (%s): %s; table %s", i, st.SQL(), why, after))
+		}
+		if cl == "ok" {
+			if ok, why := d.defaultsHold(st); !ok {
+				failures = append(failures, fmt.Sprintf("stmt %d (%s): %s; table %s", i, st.SQL(), why, after))
+			}
 		}
 		if cl != "ok" && before != after {
 			failures = append(failures, fmt.Sprintf("stmt %d (%s) failed with %s but changed the data: %s -> %s", i, st.SQL(), cl, before, after))
@@ -649,6 +695,9 @@ func run(a hx.RunArgs) error {
 		fixed(t, []stmt{{kind: "ins", ignore: true, cols: []int{0, 1}, tuples: [][]src{{sv(1), snull()}}}})
 		fixed(t, []stmt{{kind: "ins", cols: []int{0, 1}, tuples: [][]src{{sv(2), sv(5)}}},
 			{kind: "upd", ignore: true, sets: []setT{{1, snull()}}, hasKey: true, key: 2}})
+		// the INSERT IGNORE half (Props/C19.lean wT3/wH3): c2 is computed from the NULL that is adjusted afterwards
+		t3 := &table{cols: t.cols}
+		fixed(t3, []stmt{{kind: "ins", ignore: true, cols: []int{0, 1}, tuples: [][]src{{sv(1), snull()}}}})
 	}
 	{ // defaults, DEFAULT keyword, NULL passes a check, NOT ENFORCED is not enforced
 		t := &table{cols: []colSpec{{notNull: true}, {dflt: lit(5)}, {dflt: add(col(0), lit(1))}, {notNull: true, dflt: lit(7)}},
